@@ -14,7 +14,7 @@ use std::time::Duration;
 
 pub static PROP: Prop = Prop {
     id: "C14",
-    rule: "cases: in a fresh child process per case, a chain of 1-4 handlers, each of one of 13 kinds {a context function called as f(...) and used again by its bare name in the same program, global function, prefix operator, infix operator, postfix operator, SETTER operator, context function called as f(...), context function reached by the bare name f - alone, inside a list of names, as a map key, as a call argument, in a condition -, context function read as an assignment target (f = 1)}; every handler but the last re-enters the engine by executing a program that invokes the next handler; the last performs one of 15 re-entrant actions {registering the very function that the enclosing call is about to invoke, re-registering under their own names all the handlers that are running at that moment, registering an infix / postfix / prefix operator whose word occurs in a later statement of the outer program that is still running (the program was read before the handler ran, so its result is the one of the reading without that operator), parse_expression, execute with a fresh context (program using functions and all operator kinds), execute on the SAME context (read), execute on the same context (assignment), register_function, register_prefix_op, register_infix_op, register_postfix_op, lock the evaluating context's public handle and read it, get_variable/set_variable through a second handle}. Oracle (1, deterministic): the first thing every handler does is try_lock on all four registries, the descriptor store and the evaluating context: on this single-threaded evaluation every lock must be free; (2, behavioural): the action is really performed under a 10 s watchdog (normal: microseconds) and the outer evaluation must return the value computed by hand from the chain. The 13 x 15 single-handler matrix is enumerated exhaustively; chains are generated. Non-trivial: every case (each combines handler kinds with a re-entrant action); distinct by (kind chain, action).",
+    rule: "cases: in a fresh child process per case, a chain of 1-4 handlers, each of one of 15 kinds {a global function called twice in one program, a context function that reads - through a second handle on its context - what the running program has bound so far and binds a name the program reads afterwards, a context function called as f(...) and used again by its bare name in the same program, global function, prefix operator, infix operator, postfix operator, SETTER operator, context function called as f(...), context function reached by the bare name f - alone, inside a list of names, as a map key, as a call argument, in a condition -, context function read as an assignment target (f = 1)}; every handler but the last re-enters the engine by executing a program that invokes the next handler; the last performs one of 16 re-entrant actions {replacing every running global function by another handler (the second call in the same program must reach the new one), registering the very function that the enclosing call is about to invoke, re-registering under their own names all the handlers that are running at that moment, registering an infix / postfix / prefix operator whose word occurs in a later statement of the outer program that is still running (the program was read before the handler ran, so its result is the one of the reading without that operator), parse_expression, execute with a fresh context (program using functions and all operator kinds), execute on the SAME context (read), execute on the same context (assignment), register_function, register_prefix_op, register_infix_op, register_postfix_op, lock the evaluating context's public handle and read it, get_variable/set_variable through a second handle}. Oracle (1, deterministic): the first thing every handler does is try_lock on all four registries, the descriptor store and the evaluating context: on this single-threaded evaluation every lock must be free; (2, behavioural): the action is really performed under a 10 s watchdog (normal: microseconds) and the outer evaluation must return the value computed by hand from the chain. The 15 x 16 single-handler matrix is enumerated exhaustively; chains are generated. Non-trivial: every case (each combines handler kinds with a re-entrant action); distinct by (kind chain, action).",
     assumptions: &[
         "a watchdog expiry must reproduce on two more runs to count as a deadlock; the try_lock probe gives the precise lock",
         "lock state of the registries is read through the cfg-guarded locks_free() hook",
@@ -37,13 +37,20 @@ fn budget(t: Tier) -> Budget {
     }
 }
 
-pub const KINDS: [&str; 13] = [
+pub const KINDS: [&str; 15] = [
+    // a global function called twice in one program (its handler may replace it in between)
+    "global-function-twice",
+    // the context function looks at what the running program has bound so far, through a second
+    // handle on its context, and binds something the program reads afterwards
+    "ctx-function-sees-program-state",
     // the context function is used again after its first invocation has re-entered the engine
     "ctx-function-twice",
     "global-function", "prefix-op", "infix-op", "postfix-op", "setter-op", "ctx-function-call", "ctx-function-bare", "ctx-function-assign-target",
     "ctx-function-bare-in-list", "ctx-function-bare-in-map", "ctx-function-bare-as-argument", "ctx-function-bare-in-condition",
 ];
-pub const ACTIONS: [&str; 15] = [
+pub const ACTIONS: [&str; 16] = [
+    // every global function that is running is replaced by another handler (returns 77)
+    "replace-running-function",
     "register-callee",
     // re-register, under their own names, all the handlers that are running right now
     "register-running",
@@ -71,6 +78,8 @@ fn say(line: &str) {
 fn program_for(kind: &str, level: usize) -> String {
     match kind {
         "global-function" => format!("vh_c{}(1) + 1", level),
+        "global-function-twice" => format!("vh_c{}(1) + vh_c{}(2)", level, level),
+        "ctx-function-sees-program-state" => "vp = 7 ; cf(1) + vw".to_string(),
         "prefix-op" => format!("(vh_cp{} 1) + 1", level),
         "infix-op" => format!("(1 vh_ci{} 2) + 1", level),
         "postfix-op" => format!("(1 vh_cq{}) + 1", level),
@@ -88,8 +97,19 @@ fn program_for(kind: &str, level: usize) -> String {
     }
 }
 
+/// the value a level of this kind yields when the chain ends in `action`
+fn expected(kind: &str, action: &str) -> &'static str {
+    match (kind, action) {
+        // the second call reaches the handler registered by the first one's re-entrant action
+        ("global-function-twice", "replace-running-function") => "n87",
+        _ => expected_for(kind),
+    }
+}
+
 fn expected_for(kind: &str) -> &'static str {
     match kind {
+        "global-function-twice" => "n20",
+        "ctx-function-sees-program-state" => "n15",
         "ctx-function-assign-target" | "setter-op" => "none",
         "ctx-function-bare-in-list" => "[n5,n10,n5]",
         "ctx-function-bare-in-map" => "{n10=>n5}",
@@ -141,7 +161,7 @@ fn run_level(level: usize, plan: &Plan) -> Result<String, String> {
 
 fn register_handler(kind: &str, i: usize) {
     match kind {
-        "global-function" => register_function(&format!("vh_c{}", i), Arc::new(move |_| body(i))),
+        "global-function" | "global-function-twice" => register_function(&format!("vh_c{}", i), Arc::new(move |_| body(i))),
         "prefix-op" => register_prefix_op(&format!("vh_cp{}", i), Arc::new(move |_| body(i))),
         "infix-op" => register_infix_op(&format!("vh_ci{}", i), 130, InfixOpType::CALC, InfixOpAssociativity::LEFT, Arc::new(move |_, _| body(i))),
         "postfix-op" => register_postfix_op(&format!("vh_cq{}", i), Arc::new(move |_| body(i))),
@@ -158,6 +178,11 @@ fn body(level: usize) -> expression_engine::Result<Value> {
     let free = locks_free();
     let ctx_free = my_ctx.0.try_lock().is_ok();
     say(&format!("probe {} {}", level, json!({"registries": free, "context": ctx_free})));
+    if plan.chain[level] == "ctx-function-sees-program-state" {
+        let mut h = share(&my_ctx);
+        say(&format!("sees-vp {} {:?}", level, h.get_variable("vp").map(|v| V::from_value(&v).key())));
+        h.set_variable("vw", Value::from(5));
+    }
     if level + 1 < plan.chain.len() {
         let r = run_level(level + 1, &plan);
         say(&format!("inner {} {:?}", level + 1, r));
@@ -188,6 +213,14 @@ fn body(level: usize) -> expression_engine::Result<Value> {
                         Ok(Value::from(x + rust_decimal::Decimal::from(100)))
                     }),
                 );
+                say("action-result registered");
+            }
+            "replace-running-function" => {
+                for (i, kind) in plan.chain.iter().enumerate() {
+                    if kind.starts_with("global-function") {
+                        register_function(&format!("vh_c{}", i), Arc::new(|_| Ok(Value::from(77))));
+                    }
+                }
                 say("action-result registered");
             }
             "register-running" => {
@@ -329,7 +362,7 @@ pub fn run_case(chain: &[&str], action: &str, env: &Env, st: &mut Stats) -> Case
                 } else if action == "register-prefix-used-later" {
                     "result n3".to_string()
                 } else {
-                    format!("result {}", expected_for(chain[0]))
+                    format!("result {}", expected(chain[0], action))
                 };
                 if result != want {
                     return Err(Failure::new(
@@ -340,11 +373,20 @@ pub fn run_case(chain: &[&str], action: &str, env: &Env, st: &mut Stats) -> Case
                 }
                 // inner levels must have returned their values too
                 for (lvl, kind) in chain.iter().enumerate().skip(1) {
-                    let want = format!("inner {} Ok(\"{}\")", lvl, expected_for(kind));
+                    let want = format!("inner {} Ok(\"{}\")", lvl, expected(kind, action));
                     if !out.stdout.lines().any(|l| l == want) {
                         return Err(Failure::new(
                             format!("wrong-inner-result:{}:{}", kind, action),
                             format!("chain {:?}, action {}: level {} did not return {}; child output:\n{}", chain, action, lvl, expected_for(kind), out.stdout),
+                            scenario,
+                        ));
+                    }
+                }
+                for (lvl, kind) in chain.iter().enumerate() {
+                    if *kind == "ctx-function-sees-program-state" && !out.stdout.lines().any(|l| l == format!("sees-vp {} Some(\"n7\")", lvl)) {
+                        return Err(Failure::new(
+                            format!("stale-context-view:{}", action),
+                            format!("chain {:?}, action {}: the program `vp = 7 ; cf(1) + vw` had bound vp before calling cf, but cf, reading its context through the shared handle, did not see vp = 7; child output:\n{}", chain, action, out.stdout),
                             scenario,
                         ));
                     }
